@@ -25,7 +25,7 @@ def outcome(st, v):
             return "err:" + (x.get("callee") or emit.canon(x)) if isinstance(x, dict) else "err"
         if v.get("v") == "ok":
             x = v["x"]
-            if isinstance(x, dict) and x.get("v") in ("str", "some", "none"):
+            if isinstance(x, dict) and x.get("v") in ("str", "some", "none", "hole"):
                 return "ok:" + emit.canon(x)
             return "ok"
         if v.get("v") in ("str", "some", "none", "hole", "affine", "struct", "mapped"):
